@@ -102,13 +102,16 @@ pub fn compute_patch_indices(mesh: &Mesh) -> Vec<Vec<usize>> {
     // repeat the process until all faces are accounted for.
 
     // Compute the edge table
-    let mut edge_table = HashMap::new();
+    let mut edge_table: HashMap<(u32, u32), Vec<usize>> = HashMap::new();
     let mut remaining_faces = HashSet::new();
 
     for (i, face) in mesh.faces().iter().enumerate() {
-        edge_table.insert((face[0], face[1]), i);
-        edge_table.insert((face[1], face[2]), i);
-        edge_table.insert((face[2], face[0]), i);
+        for k in 0..3 {
+            edge_table
+                .entry(make_sym(&edge_key(k, face)))
+                .or_default()
+                .push(i);
+        }
         remaining_faces.insert(i);
     }
 
@@ -129,29 +132,17 @@ pub fn compute_patch_indices(mesh: &Mesh) -> Vec<Vec<usize>> {
 
         let mut patch = vec![face_index];
 
-        while let Some((v0, v1)) = working_queue.pop() {
+        while let Some(edge) = working_queue.pop() {
             #[cfg(feature = "verif")]
             crate::verif::tick();
-            let e0 = (v0, v1);
-            let e1 = (v1, v0);
-
-            if let Some(f0) = edge_table.get(&e0) {
-                if remaining_faces.contains(f0) {
-                    patch.push(*f0);
-                    remaining_faces.remove(f0);
-                    working_queue.push((mesh.faces()[*f0][0], mesh.faces()[*f0][1]));
-                    working_queue.push((mesh.faces()[*f0][1], mesh.faces()[*f0][2]));
-                    working_queue.push((mesh.faces()[*f0][2], mesh.faces()[*f0][0]));
-                }
-            }
-
-            if let Some(f1) = edge_table.get(&e1) {
-                if remaining_faces.contains(f1) {
-                    patch.push(*f1);
-                    remaining_faces.remove(f1);
-                    working_queue.push((mesh.faces()[*f1][0], mesh.faces()[*f1][1]));
-                    working_queue.push((mesh.faces()[*f1][1], mesh.faces()[*f1][2]));
-                    working_queue.push((mesh.faces()[*f1][2], mesh.faces()[*f1][0]));
+            // Every face on this edge, whichever way round it traverses it
+            for f in edge_table.get(&make_sym(&edge)).into_iter().flatten() {
+                if remaining_faces.contains(f) {
+                    patch.push(*f);
+                    remaining_faces.remove(f);
+                    working_queue.push((mesh.faces()[*f][0], mesh.faces()[*f][1]));
+                    working_queue.push((mesh.faces()[*f][1], mesh.faces()[*f][2]));
+                    working_queue.push((mesh.faces()[*f][2], mesh.faces()[*f][0]));
                 }
             }
         }
